@@ -139,6 +139,24 @@ def run(ctx):
         trs.append({"tid": len(trs) + 1, "seq": list(s), "ev": ev})
         for ph in grid:
             ctx.nontrivial.add((s, ph))
+    # one object asked more than 500 distinct (pH, quantity) questions, then the same again (anything it remembers must stay right)
+    s = common.random_sequences(ctx.rng, 1, 60, 30)[0] + "KRHDECY"
+    o = lc.SP(s)
+    fine = [k / 10.0 for k in range(0, 141)]
+    trs.append({"tid": len(trs) + 1, "seq": list(s), "after": [{"made": "the 0.1 grid read twice"}],
+                "ev": ph_events(ctx, o, s, fine, need) + ph_events(ctx, o, s, fine, need)})
+    # long chains of nearly the same titratable composition in one process (a wild type and point variants)
+    for rep in range(ctx.pick(2, 6)):
+        wt_ = list(common.random_sequences(ctx.rng, 1, 260, 140)[0])
+        tit = [i for i, c in enumerate(wt_) if c in PKA10]
+        for var in range(ctx.pick(10, 24)):
+            v = list(wt_)
+            for i in ctx.rng.sample(tit, min(len(tit), ctx.rng.randint(1, 2))) if var else []:
+                v[i] = ctx.rng.choice([c for c in "KRHDECYGS" if c != v[i]])
+            v = "".join(v)
+            p = pi_event(ctx, lc.SP(v), v)
+            if p:
+                trs.append({"tid": len(trs) + 1, "seq": list(v), "after": [{"made": "variant %d of a %d-residue chain" % (var, len(v))}], "ev": [p]})
     seqs = common.random_sequences(ctx.rng, ctx.pick(20, 150), ctx.pick(100, 400), 1)
     for i, s in enumerate(seqs):
         o, s, how = make_object(lc, s, ctx.rng)
